@@ -59,12 +59,21 @@ class Net:
             self.log.append(("CONNECT", len(self.conns), ip, port, tls))
             self.conns.append({"id": len(self.conns), "ip": ip, "port": port, "tls": tls, "sock": None, "buf": bytearray(),
                                "open": False})
-            return a
+            return ClientSock(a, self)
         cid = len(self.conns)
         self.conns.append({"id": cid, "ip": ip, "port": port, "tls": tls, "sock": b, "buf": bytearray(),
                            "open": True})
         self.log.append(("CONNECT", cid, ip, port, tls))
-        return a
+        return ClientSock(a, self)
+
+    # ---- a socket that takes only part of a request (a large upload, a peer that does not read)
+    def arm_cap(self, k):
+        """the next client socket that sends takes the head of what it is given (through the first blank line) and `k`
+        more bytes, then blocks (EAGAIN) until `lift_cap`; other sockets are not limited"""
+        self.cap = {"k": k, "sock": None, "seen": bytearray(), "blocked": False}
+
+    def lift_cap(self):
+        self.cap = None
 
     def pump(self):
         """read what has arrived at every server end; returns list of (conn, closed_now)"""
@@ -139,6 +148,31 @@ class Net:
                     c["sock"].close()
                 except OSError:
                     pass
+
+
+class ClientSock:
+    """client end of a socket pair; `send` honours the Net's cap (see `Net.arm_cap`), everything else is the socket's"""
+    def __init__(self, sock, net):
+        self._s, self._net = sock, net
+
+    def send(self, data):
+        cap = getattr(self._net, "cap", None)
+        if cap is None or cap["sock"] not in (None, self):
+            return self._s.send(data)
+        cap["sock"] = self
+        stream = bytes(cap["seen"]) + bytes(data)
+        i = stream.find(b"\r\n\r\n")
+        allowed = len(data) if i < 0 else (i + 4 + cap["k"]) - len(cap["seen"])
+        if allowed < len(data):
+            cap["blocked"] = True
+        if allowed <= 0:
+            raise BlockingIOError(errno.EAGAIN, "send capped by the double")
+        n = self._s.send(bytes(data[:allowed]))
+        cap["seen"].extend(data[:n])
+        return n
+
+    def __getattr__(self, k):
+        return getattr(self._s, k)
 
 
 class SockDouble:
